@@ -1423,6 +1423,40 @@ def mc_generator(tier, seed):
     return res
 
 
+_genrun_scen = []   # upstream assignments reached by MC_GenRun (tuples of line structures), concretised by record_c17
+
+
+def mc_genrun(tier, seed):
+    """a RUN of the tool over several targets (every order, every assignment of small upstream texts, empty or longer old
+    files): each written file holds its own upstream's lines; two negative controls (shared scratch slice returned whole,
+    file opened without truncation)"""
+    inv = "INVARIANTS TypeOK RunFaithful Untouched DoneMeansAll OrderFree\nPROPERTIES OneFilePerStep\nCHECK_DEADLOCK FALSE\n"
+    def cfg(nt, ml, words, scratch="fresh", write="trunc"):
+        return 'SPECIFICATION Spec\nCONSTANTS NT = %d MaxLen = %d Words = {%s} Scratch = "%s" Write = "%s"\n' % (
+            nt, ml, ", ".join('"%s"' % w for w in words), scratch, write) + inv
+    res = []
+    sizes = [(2, 2, "ab"), (3, 2, "a")] if tier == "quick" else [(2, 3, "ab"), (3, 3, "a")]
+    del _genrun_scen[:]
+    for nt, ml, words in sizes:
+        d = vlib.spec_dir()
+        c = vlib.write_cfg(d, "GenRun_run.cfg", cfg(nt, ml, words))
+        rc, out, wall = vlib.tlc(d, "MC_GenRun.tla", c, workers=4, timeout=900, args=["-dump", "states.dump"])
+        m = vlib.STAT_RE.findall(out)
+        if "No error has been found" not in out or not m:
+            raise Infra("MC_GenRun failed:\n" + out[-2000:])
+        seen = set()
+        for ln in open(os.path.join(d, "states.dump")):
+            if ln.startswith("/\\ upstream = ") and ln not in seen:
+                seen.add(ln)
+                _genrun_scen.append(json.loads(ln[len("/\\ upstream = "):].strip().replace("<<", "[").replace(">>", "]")))
+        res.append(dict(module="MC_GenRun[NT=%d MaxLen=%d Words=%s]" % (nt, ml, words), states=int(m[-1][0]), distinct=int(m[-1][1]), wall_s=round(wall, 1)))
+    for scratch, write, label in (("shared", "trunc", "shared-scratch control"), ("fresh", "notrunc", "no-truncate control")):
+        r = vlib.run_mc("MC_GenRun", cfg(2, 2, "a", scratch, write), workers=1, timeout=300, expect_violation="RunFaithful")
+        r["module"] = "MC_GenRun[%s]" % label
+        res.append(r)
+    return res
+
+
 def _letters():
     pools = {
         "latin": [chr(c) for c in list(range(0x61, 0x7B)) + list(range(0x41, 0x5B)) + list(range(0xC0, 0x17F)) if unicodedata.category(chr(c))[0] == "L"],
@@ -1646,6 +1680,16 @@ def record_c17(binary, tier, seed):
             inputs = {f: concretise_lines(structs[(k * 10 + i) % len(structs)], rng, pools).encode() for i, f in enumerate(FILES)}
             lines += run_tool(tool, binary, port, inputs, False, "structure", d, other_fs=(k % 3 == 1))
             runs += 1
+        # runs enumerated by MC_GenRun: which targets get how many lines (blank lines, final LF or none), served together
+        # in one run over the output of the previous one - a target's file depends on its own upstream only, whatever
+        # the tool read for the other targets and in whatever order it walks them
+        scen = [u for u in _genrun_scen if len({len([x for x in t if x == "LF"]) for t in u}) > 1] or list(_genrun_scen)
+        rng.shuffle(scen)
+        for k, u in enumerate(scen[:(6 if tier == "quick" else 120)]):
+            rot = rng.randrange(len(u))
+            inputs = {f: concretise_lines(u[(i + rot) % len(u)] * (1 + (i + k) % 3), rng, pools).encode() for i, f in enumerate(FILES)}
+            lines += run_tool(tool, binary, port, inputs, False, "genrun", d, other_fs=(k % 4 == 3))
+            runs += 1
         # very long words (a line-oriented reader with a token limit would drop them and everything after)
         for n in ((65535, 65536, 70000) if tier == "quick" else (4095, 4096, 65535, 65536, 65537, 70000, 200000, 1 << 20)):
             w = "".join(rng.choice(pools["latin"]) for _ in range(64)) * (n // 64 + 1)
@@ -1678,7 +1722,7 @@ def record_c17(binary, tier, seed):
                 runs += 1
     finally:
         srv.shutdown()
-    return lines, runs, {"tool_runs": runs, "line_structures_available": len(_gen_structs)}
+    return lines, runs, {"tool_runs": runs, "line_structures_available": len(_gen_structs), "run_scenarios_available": len(_genrun_scen)}
 
 
 def replay_c17(path, binary):
@@ -1721,7 +1765,7 @@ def replay_c17(path, binary):
     return (len(mine) == 0, "served the recorded inputs of the run to the ten targets: %d Gen events, %d failing" % (sum(1 for x in lines if '"op":"Gen"' in x), len(mine)))
 
 
-RECIPES["C17"] = dict(mc=[mc_generator], record=record_c17, replay=replay_c17, props=["C17"],
+RECIPES["C17"] = dict(mc=[mc_generator, mc_genrun], record=record_c17, replay=replay_c17, props=["C17"],
                       speaks=lambda e: e.get("op") == "Gen",
                       rule="the real update-wordlist tool (built with -tags verif) run against a local server: the golden lists (output must equal golden and committed lists), "
                            "line structures enumerated by MC_Generator (blank lines, trailing LF or not) concretised with letters and marks of Latin/Hiragana/Hangul/Han/other scripts, "
